@@ -657,6 +657,9 @@ class TeX(object):
 
         if charsubs is None:
             charsubs = getattr(self.ownerDocument, 'charsubs', [])
+            # No quote or dash substitutions in math mode
+            if self.ownerDocument.context.isMathMode:
+                charsubs = []
 
         if type in ['Dimen','Length','Dimension']:
             n = self.readDimen()
